@@ -81,10 +81,13 @@ OwnAncestor(f, t) == Anc(t, f)
 MustImports(P, c) ==
     LET S == Scanned(P, c)  pre == AbsPrefix(P, c)  M == InternalMods(P, c) IN
     UNION {{<<s.file, t>> : t \in {t \in NamedIn(S, pre, s).must : t \in M /\ ~OwnAncestor(s.file, t)}} : s \in StmtsOf(P, c)}
+\* (an ancestor package of module_path lies outside module_path: with external libraries excluded there is no import
+\* to it, C10; with externals included an import of it is accounted for)
 MayImports(P, c) ==
-    LET S == Scanned(P, c)  pre == AbsPrefix(P, c)  M == InternalMods(P, c) IN
-    UNION {{<<s.file, t>> : t \in {t \in NamedIn(S, pre, s).may : t \in M}} : s \in StmtsOf(P, c)}
-    \cup UNION {{<<f, a>> : a \in {a \in Parents(f) : a \in M}} : f \in VisibleFiles(P, c)}
+    LET S == Scanned(P, c)  pre == AbsPrefix(P, c)  M == InternalMods(P, c)
+        Allowed(t) == t \in M /\ (c.ext \/ Anc(c.mpath, t)) IN
+    UNION {{<<s.file, t>> : t \in {t \in NamedIn(S, pre, s).may : Allowed(t)}} : s \in StmtsOf(P, c)}
+    \cup UNION {{<<f, a>> : a \in {a \in Parents(f) : Allowed(a)}} : f \in VisibleFiles(P, c)}
 
 \* external targets: named by some statement, outside module_path's name space.  (A name inside that name space
 \* that is no scanned module - a dangling import, or the 'n' of 'from . import n' that is a function - is neither
